@@ -3,6 +3,7 @@ package rules
 import (
 	"fmt"
 	"go/ast"
+	"go/constant"
 	"go/token"
 	"go/types"
 	"strings"
@@ -1009,6 +1010,83 @@ func runC07(p *core.Prog, r *core.Report, tier string) {
 	}
 	r.Floor("C07.g majority strategies with a threshold", nThr, 1)
 
+	// ---- (t) the early exit of a majority collector: the loop stops waiting for further answers only once the largest
+	// tally is a STRICT majority of the requests (count >= n/2+1); any smaller bound lets it settle on a value that the
+	// outstanding answers could still outvote. Decided by evaluating the comparison for all small n and counts.
+	nEarly := 0
+	for _, f := range fns {
+		if !strings.HasSuffix(core.RelPkg(f.Pkg.Pkg.Path()), "/majority") {
+			continue
+		}
+		k := 0
+		for _, b := range f.Blocks {
+			iff, ok := b.Instrs[len(b.Instrs)-1].(*ssa.If)
+			if !ok {
+				continue
+			}
+			cmp, ok := iff.Cond.(*ssa.BinOp)
+			if !ok {
+				continue
+			}
+			switch cmp.Op {
+			case token.LSS, token.LEQ, token.GTR, token.GEQ:
+			default:
+				continue
+			}
+			lx, hx := arithLeaves(cmp.X)
+			ly, hy := arithLeaves(cmp.Y)
+			if !(hx || hy) || len(lx) != 1 || len(ly) != 1 || lx[0] == ly[0] {
+				continue // not a halving comparison between one count and one total
+			}
+			k++
+			nEarly++
+			// which leaf is the total: the one on the side that carries the halving (or, for count*2 <=> n, the other)
+			agree, disagree := true, true
+			for n := int64(1); n <= 9; n++ {
+				for c := int64(0); c <= n+1; c++ {
+					env := func(countLeaf, totalLeaf ssa.Value) (bool, bool) {
+						vx, okx := evalArith(cmp.X, map[ssa.Value]int64{countLeaf: c, totalLeaf: n})
+						vy, oky := evalArith(cmp.Y, map[ssa.Value]int64{countLeaf: c, totalLeaf: n})
+						if !okx || !oky {
+							return false, false
+						}
+						var holds bool
+						switch cmp.Op {
+						case token.LSS:
+							holds = vx < vy
+						case token.LEQ:
+							holds = vx <= vy
+						case token.GTR:
+							holds = vx > vy
+						case token.GEQ:
+							holds = vx >= vy
+						}
+						return holds, true
+					}
+					countLeaf, totalLeaf := lx[0], ly[0]
+					if hx && !hy && !mulSide(cmp.X) || mulSide(cmp.Y) {
+						countLeaf, totalLeaf = ly[0], lx[0]
+					}
+					holds, okE := env(countLeaf, totalLeaf)
+					if !okE {
+						agree, disagree = false, false
+						continue
+					}
+					below := c < n/2+1
+					if holds != below {
+						agree = false
+					}
+					if holds == below {
+						disagree = false
+					}
+				}
+			}
+			r.Check(agree || disagree, "C07.t", fmt.Sprintf("%s|early-exit-bound#%d|strict-majority", core.FnKey(f), k), p.Pos(core.IfPos(iff)), "the collector goes on waiting exactly while the largest tally is below n/2+1",
+				"the bound at which the collector stops waiting ("+ds.D(cmp.X).String()+" "+cmp.Op.String()+" "+ds.D(cmp.Y).String()+") is not the strict majority n/2+1 of the requests: it can settle on a value that holds only half of the answers while the outstanding nodes could still outvote it")
+		}
+	}
+	r.Floor("C07.t early-exit bounds in the majority strategies", nEarly, 2)
+
 	// (g') what is counted is the whole answer: the key under which majority responses are tallied is the hash tree
 	// root of the response's data (tallying by one field merges answers that differ elsewhere, and a value reported
 	// by fewer nodes than the threshold can then win)
@@ -1279,4 +1357,102 @@ func decidingIfs(f *ssa.Function, target ssa.Instruction) []decidingIf {
 		out = append(out, decidingIf{ifi, skip})
 	}
 	return out
+}
+
+// arithLeaves: the non-constant leaves of an integer expression built from + - * / and conversions, and whether the
+// expression multiplies or divides by the constant 2.
+func arithLeaves(v ssa.Value) (leaves []ssa.Value, halves bool) {
+	seen := map[ssa.Value]bool{}
+	var walk func(v ssa.Value, depth int)
+	walk = func(v ssa.Value, depth int) {
+		switch x := v.(type) {
+		case *ssa.Const:
+			return
+		case *ssa.Convert:
+			walk(x.X, depth+1)
+			return
+		case *ssa.ChangeType:
+			walk(x.X, depth+1)
+			return
+		case *ssa.BinOp:
+			switch x.Op {
+			case token.ADD, token.SUB, token.MUL, token.QUO:
+				if (x.Op == token.QUO && core.IsIntConst(x.Y, 2)) || (x.Op == token.MUL && (core.IsIntConst(x.Y, 2) || core.IsIntConst(x.X, 2))) {
+					halves = true
+				}
+				if depth < 8 {
+					walk(x.X, depth+1)
+					walk(x.Y, depth+1)
+					return
+				}
+			}
+		}
+		if !seen[v] {
+			seen[v] = true
+			leaves = append(leaves, v)
+		}
+	}
+	walk(v, 0)
+	return leaves, halves
+}
+
+// mulSide: the expression doubles its leaf (count*2 compared with the total).
+func mulSide(v ssa.Value) bool {
+	found := false
+	var walk func(v ssa.Value, depth int)
+	walk = func(v ssa.Value, depth int) {
+		switch x := v.(type) {
+		case *ssa.Convert:
+			walk(x.X, depth+1)
+		case *ssa.ChangeType:
+			walk(x.X, depth+1)
+		case *ssa.BinOp:
+			if x.Op == token.MUL && (core.IsIntConst(x.Y, 2) || core.IsIntConst(x.X, 2)) {
+				found = true
+			}
+			if depth < 8 {
+				walk(x.X, depth+1)
+				walk(x.Y, depth+1)
+			}
+		}
+	}
+	walk(v, 0)
+	return found
+}
+
+func evalArith(v ssa.Value, env map[ssa.Value]int64) (int64, bool) {
+	if n, ok := env[v]; ok {
+		return n, true
+	}
+	switch x := v.(type) {
+	case *ssa.Const:
+		if x.Value != nil && x.Value.Kind() == constant.Int {
+			n, exact := constant.Int64Val(x.Value)
+			return n, exact
+		}
+	case *ssa.Convert:
+		return evalArith(x.X, env)
+	case *ssa.ChangeType:
+		return evalArith(x.X, env)
+	case *ssa.BinOp:
+		a, ok1 := evalArith(x.X, env)
+		b, ok2 := evalArith(x.Y, env)
+		if !ok1 || !ok2 {
+			return 0, false
+		}
+		switch x.Op {
+		case token.ADD:
+			return a + b, true
+		case token.SUB:
+			return a - b, true
+		case token.MUL:
+			return a * b, true
+		case token.QUO:
+			if b == 0 {
+				return 0, false
+			}
+			return a / b, true
+		}
+	}
+	return 0, false
 }
